@@ -18,7 +18,7 @@ ASSUMPTIONS = [
     "a Protocol member written as a plain `def` annotated AsyncIterator[...] counts as async-iterator nature (the correct typing spelling)",
     "annotations are compared as the strings found in __annotations__ (the three artefacts are rendered from the same text)",
 ]
-BOUND = {"quick": "11x11 shape pairs x 17 tag patterns = 2057 documents", "thorough": "same + 3-operation documents over the 4 overload/stream shapes (576 more)"}
+BOUND = {"quick": "13x13 shape pairs x 17 tag patterns + 51 in-process histories", "thorough": "same + 3-operation documents over the 4 overload/stream shapes (576 more)"}
 CHUNK = 4
 
 P = ops.param
@@ -36,6 +36,8 @@ SHAPES = {
     "json+stream206": ops.op("get", "/js", [], None, {"200": "json-model", "206": "octet"}),
     "sse+json201": ops.op("get", "/sj", [], None, {"200": "event-stream", "201": "json-model"}),
     "stream-default": ops.op("get", "/sd", [], None, {"default": "event-stream"}),   # no explicit 2xx: the streamed payload sits under `default`
+    "options": ops.op("options", "/p", [], None, {"204": "none"}),   # CORS-preflight style operation exported by gateways
+    "head+trace": ops.op("head", "/ht/{id}", [P("id", "path", True, "integer")], None, {"200": "none"}),
     "bulk": ops.op("post", "/bulk", [], {"kind": "json-array-inline", "required": True}, {"204": "none"}),
     "bodyparams": ops.op("post", "/bp/{id}", [P("id", "path", True, "string"), P("q", "query", False, "date")],
                          {"kind": "json-inline", "required": False}, {"201": "json-model", "204": "none"}),
